@@ -72,7 +72,7 @@ type arrival struct {
 type run struct {
 	mu       sync.Mutex
 	actual   []Event
-	free     int32 // gates no longer hold anybody
+	free     int32    // gates no longer hold anybody
 	procOf   sync.Map // *lime.RequestCommand -> caller name
 	release  map[string]chan struct{}
 	arrivals chan arrival
@@ -201,7 +201,9 @@ func newRig(r *run) (*rig, error) {
 		ctx, cancel := context.WithTimeout(context.Background(), 5*time.Second)
 		defer cancel()
 		_, err := g.cc.EstablishSession(ctx, nil, nil, lime.Identity{Name: "me", Domain: "example.com"},
-			func([]lime.AuthenticationScheme, lime.Authentication) lime.Authentication { return &lime.GuestAuthentication{} }, "home")
+			func([]lime.AuthenticationScheme, lime.Authentication) lime.Authentication {
+				return &lime.GuestAuthentication{}
+			}, "home")
 		est <- err
 	}()
 	var first map[string]interface{}
